@@ -260,7 +260,10 @@ def h_history(shape_i: int, h1: int, h2: int, tp: int, shard=None) -> None:
         heads["master"] = shard["master_head"]
     with concrete():
         ids = sorted(shape)
+        from vf.xh import sweep_should_stop
         for tagged in itertools.chain.from_iterable(itertools.combinations(ids, k) for k in range(len(ids) + 1)):
+            if sweep_should_stop():
+                return
             for matching in itertools.chain.from_iterable(itertools.combinations(ids, k) for k in range(len(ids) + 1)):
                 if not matching:
                     continue
